@@ -45,3 +45,13 @@ func init() {
 	props["C18"] = &propInfo{engine: "B", level: "exploration", minOutcomes: 2, mustOutcomes: []string{"positions-ok"},
 		assume: []string{"columns are counted in bytes from 1, lines from 1; for comment tokens the reported position is that of the first content character (after # or /*)"}}
 }
+
+func init() {
+	props["C19"] = &propInfo{engine: "B", level: "exploration", minOutcomes: 2, mustOutcomes: []string{"value", "error"},
+		assume: []string{"number conversion is compared only where Go defines it exactly: integral values inside the parameter type's range (and |x| < 2^53)"}}
+}
+
+func init() {
+	props["C20"] = &propInfo{engine: "B", level: "exploration", minOutcomes: 1, mustOutcomes: []string{"ran"},
+		assume: []string{"the packed binary is started in-process through RunPackedBinary with the osArgs/osExit/osStderr/handleError package seams (the ones the repository's pack tests use); the interpreter binary is represented by filler bytes"}}
+}
